@@ -1280,6 +1280,75 @@ def check_expect(goline, exp):
     return None
 
 
+# ------------------------------------------------------------------ family "long chains"
+# Derived types inherit the whole chain at any length: chains of 63 ... 500 typedefs whose DERIVED end sorts first
+# (resolveTypedefs enters it before anything is memoised), in one module, across an import (the importing module
+# sorts first) and with the derived part in nested scopes (entered before the top-level typedefs it is based on).
+
+def long_chain(rnd, n, shape):
+    a = Module("a0", False, "a", None)
+    b = Module("b0", False, "b", None)
+    mods = [a]
+    names = ["t%04d" % i for i in range(n)]          # t0000 is the most derived
+    where = []                                        # scope of every typedef
+    if shape == "import":
+        a.imports.append(("bb", "b0"))
+        mods.append(b)
+        cut = rnd.randint(1, n - 1)
+        where = [a.top] * cut + [b.top] * (n - cut)
+    elif shape == "nested":
+        c = Scope("container", "c1", a, a.top)
+        a.top.kids.append(c)
+        g = Scope(rnd.choice(["list", "container", "grouping"]), "c2", a, c)
+        c.kids.append(g)
+        c1, c2 = sorted(rnd.sample(range(1, n), 2))
+        where = [g] * c1 + [c] * (c2 - c1) + [a.top] * (n - c2)
+    else:
+        where = [a.top] * n
+    for i, nm in enumerate(names):
+        sc = where[i]
+        d = Typedef(nm, sc)
+        if i == n - 1:
+            d.type = TRef("string")
+            d.type.pats = ["base"]
+        else:
+            nxt = names[i + 1]
+            if where[i + 1].mod is not sc.mod:
+                d.type = TRef("bb:" + nxt)
+            else:
+                d.type = TRef(rnd.choice([nxt, sc.mod.prefix + ":" + nxt]))
+        if i % 37 == 5:
+            d.units = "u%d" % i
+        if i % 41 == 7:
+            d.default = "d%d" % i
+        if i % 29 == 3:
+            d.type.pats = d.type.pats + ["p%d" % (i % 58)]
+        sc.typedefs.append(d)
+    for sc in {id(w): w for w in where}.values():
+        rnd.shuffle(sc.typedefs)                      # the order in the text does not matter
+    inner = where[0]
+    for j, i in enumerate([0, n // 2, n - 1]):
+        x = Leaf("leaf%d" % j)
+        tgt = names[i]
+        x.type = TRef(tgt if where[i].mod is inner.mod else "bb:" + tgt)
+        inner.leaves.append(x)
+    rnd.shuffle(mods)
+    return Schema(mods)
+
+
+def long_cases(rnd, tier):
+    out = []
+    lens = [63, 64, 65, 66, 100]
+    for n in lens:
+        for shape in ("flat", "import", "nested"):
+            go, ml, texts = lines_of(long_chain(rnd, n, shape))
+            out.append(("long:%s" % shape, False, go, ml, texts, 0, None))
+    for shape in (["flat"] if tier == "quick" else ["flat", "import", "nested"]):
+        go, ml, texts = lines_of(long_chain(rnd, 500, shape))
+        out.append(("long:%s" % shape, False, go, ml, texts, 0, None))
+    return out
+
+
 # ------------------------------------------------------------------ family "unused typedefs under same-named scopes"
 # resolveTypedefs is the only place where a typedef that nothing uses gets resolved: every one of them has to be
 # swept.  Two scopes with the same path of names (a grouping and a container / list / rpc / notification of one name,
@@ -1597,6 +1666,9 @@ def build_cases(tier, seed):
             go, ml, texts = lines_of(S)
             cases.append(("fault:" + f, True, go, ml, texts, 0, None))
         hist["fault:" + f] = made
+    lc = long_cases(rnd, tier)
+    cases += lc
+    hist["long-chains"] = len(lc)
     tc = twin_cases(rnd, tier)
     cases += tc
     hist["twins:runs"] = len(tc)
